@@ -126,9 +126,14 @@ class Run:
     def persistent(self, target: str) -> list[str]:
         return lc.spec_names(self.history['releases'][target], ('S', 'R'))
 
-    def check_load(self, where: str, target: str, generation: int, result: dict, mode: str, hp=None) -> None:
+    def transformers(self, target: str) -> list[str]:
+        """Stateful actors that sit in the project's source transform."""
+        return [el[1] for el in self.history['releases'][target] if el[0] == 'X']
+
+    def check_load(self, where: str, target: str, generation: int, result: dict, mode: str, hp=None,
+                   expected: typing.Optional[dict] = None, skip_sigs: typing.Collection[str] = ()) -> None:
         hp = self.hp if hp is None else hp
-        expected = self.model[target][generation - 1]
+        expected = expected or self.model[target][generation - 1]
         persistent = set(self.persistent(target))
         seen = collections.Counter()
         sigs: dict = {}
@@ -163,9 +168,10 @@ class Run:
         if mode == 'train':
             self.sigs[key] = {n: sorted(v) for n, v in sigs.items()}
         elif key in self.sigs:
-            got = {n: sorted(v) for n, v in sigs.items()}
-            if got != self.sigs[key]:
-                name = next(n for n in got if got[n] != self.sigs[key].get(n))
+            got = {n: sorted(v) for n, v in sigs.items() if n not in skip_sigs}
+            want = {n: v for n, v in self.sigs[key].items() if n not in skip_sigs}
+            if got != want:
+                name = next(n for n in got if got[n] != want.get(n))
                 raise base.Violation('foreign-state', f'{where}: the copies of actor {name} received states with '
                                                       f'signatures {got[name]}, the training of generation {generation} '
                                                       f'produced {self.sigs[key].get(name)} (a state of another copy)',
@@ -313,6 +319,10 @@ class Run:
             self.stats['op:train'] += 1
             self.events.append([kind, target, res.value['generation'], res.value['nstates']])
             return
+        if kind in ('duel', 'session') and self.transformers(target):
+            # the listed finding 'perftrack-retrains-source-transform' is judged (exactly) on plain perftrack actions
+            op = {**op, **({'mode': 'apply'} if op.get('mode') == 'perftrack' else {}),
+                  **({'then': 'apply'} if op.get('then') == 'perftrack' else {})}
         if kind == 'duel':
             self.duel(idx, op, target, project, release)
             return
@@ -384,6 +394,9 @@ class Run:
         if op.get('interleave') is not None:
             nstates = self.nstates.get(target, 1)
             pause = {'at': 1 + int(op['interleave'] * nstates), 'match': ['.bin']}
+        if kind == 'perftrack' and self.transformers(target):
+            self.perftrack_with_source_transform(idx, op, target, generation, args, where)
+            return
         child = self.incarnation()
         fault = None
         if op.get('readerr') is not None and pause is None:
@@ -469,6 +482,71 @@ class Run:
             return
         self.stats[f'op:{kind}'] += 1
         self.events.append([kind, target, generation, res.value['nstates']])
+
+    def perftrack_with_source_transform(self, idx: int, op: dict, target: str, generation: int, args: dict,
+                                        where: str) -> None:
+        """Listed finding 'perftrack-retrains-source-transform': the evaluation runs the TRAIN path of the source
+        transform - its stateful actors are re-trained on the evaluation data on top of their loaded states. When
+        they are the only persistent actors that is committed as a new generation; with persistent actors in the
+        pipeline as well the commit is refused (number of states) and the evaluation fails. Judged exactly: what is
+        neither the correct behaviour nor precisely this one is a VIOLATION."""
+        project, release = target.split('/')
+        token = args['token']
+        where += ' [stateful source transform]'
+        res = self.incarnation().call('perftrack', args)
+        loaded = self.model[target][generation - 1]
+        xnames = self.transformers(target)
+        listed = 'perftrack-retrains-source-transform' in {f['id'] for f in self.findings}
+        gens = boxmod.Child(self.box.root, OPTABLE, self.seed * 17 + idx, env={'LC_LOG': self.logfile + '.probe'})
+        listing = gens.call('generations', {'project': project, 'release': release}).value
+        gens.close()
+        ngen = len(self.model[target])
+        if res.ok:
+            try:  # the correct behaviour first
+                if listing != list(range(1, ngen + 1)):
+                    raise base.Violation('evaluation-committed-a-generation', f'{where}: generations afterwards: {listing}',
+                                         mode='perftrack')
+                if res.value['generation'] != generation:
+                    raise base.Violation('wrong-generation', f'{where}: loaded generation {res.value["generation"]}',
+                                         mode='perftrack')
+                self.check_load(where, target, generation, res.value, 'perftrack')
+                self.stats['op:perftrack'] += 1
+                return
+            except base.Violation as err:
+                correct = err
+            retrained = {**loaded, **{x: loaded[x] + [token] for x in xnames}}
+            only_transformers = set(self.persistent(target)) == set(xnames)
+            exact = listed and only_transformers and listing == list(range(1, ngen + 2))
+            if exact:
+                try:
+                    self.check_load(where, target, generation, res.value, 'perftrack', expected=retrained,
+                                    skip_sigs=xnames)
+                    for rec in res.value['log']:
+                        if rec.get('event') == 'train' and (rec['actor'] not in xnames or rec['prev'] != loaded[rec['actor']]
+                                                            or rec['tokens'] != [token]):
+                            raise base.Violation('unexpected-training', f'{where}: {rec}', mode='perftrack')
+                except base.Violation:
+                    exact = False
+            if not exact:
+                raise correct
+            self.model[target].append(retrained)  # ...and the registry now holds that as its newest generation
+            self.known.setdefault('perftrack-retrains-source-transform',
+                                  f'{where}: source transform actors {xnames} were re-trained on the evaluation data '
+                                  f'(chain {loaded[xnames[0]]} -> {retrained[xnames[0]]}) and generation {ngen + 1} was '
+                                  f'committed by an evaluation')
+            self.stats['known:perftrack-retrains-source-transform'] += 1
+            return
+        if os.path.exists(self.logfile):
+            os.unlink(self.logfile)
+        refused = 'Committed number of states not matching the number of nodes' in str(res.value)
+        if (listed and refused and set(self.persistent(target)) != set(xnames)
+                and listing == list(range(1, ngen + 1))):
+            self.known.setdefault('perftrack-retrains-source-transform',
+                                  f'{where}: the evaluation re-trained the source transform actors {xnames} and failed '
+                                  f'when it tried to commit them alone ({res.value})')
+            self.stats['known:perftrack-retrains-source-transform'] += 1
+            return
+        raise base.Violation('action-failed', f'{where}: {res.value} (generations afterwards: {listing})', mode='perftrack')
 
     def duel(self, idx: int, op: dict, target: str, project: str, release: str) -> None:
         """Three processes: trainer T2 is parked inside its commit (generation number N already taken from the
@@ -755,7 +833,7 @@ def main(argv: list[str]) -> int:
             'schedule': None, 'violation': {'class': klass, 'mode': mode, 'detail': got['detail']}})
         print(f'VIOLATION property={PROP} replay={path}')
         print(f'  class={klass} mode={mode}: {got["detail"][:300]}')
-        print(f'  pipelines={ {k: lc.render(v) for k, v in history["releases"].items()} } ops={len(history["ops"])}')
+        print(f'  pipelines={ {k: "source transform " + str([e[1] for e in v if e[0] == "X"]) + " >> " + lc.render(v) for k, v in history["releases"].items()} } ops={len(history["ops"])}')
         nviol += 1
     wall = time.monotonic() - start
     nruns = len([r for r in results if not r.get('harness')])
